@@ -19,7 +19,7 @@ def close(a, b, tol=RTOL):
         return False
     with np.errstate(invalid="ignore"):
         ok = np.abs(a - b) <= tol * (1.0 + np.abs(a) + np.abs(b))
-    ok = ok | ((a == b))  # +-inf equal
+    ok = ok | (a == b) | (np.isnan(a) & np.isnan(b))  # +-inf equal; nan (inf - inf) equal
     return bool(np.all(ok))
 
 
